@@ -111,13 +111,13 @@ def nx_edges_view(ex, g: VNx):
 
 
 def closure(ex, E, name):
-    """rtc of E; rejected when E depends on an enclosing iteration constant (the closure symbol would have to be
-    indexed by it)."""
+    """rtc of E; when E depends on enclosing iteration constants the closure symbol is indexed by exactly those constants."""
     L = ex.L
     if ex.binders:
         x, y = L.node("cx"), L.node("cy")
         body = E(x, y)
-        ids = {b.get_id() for b in ex.binders}
+        ids = {b.get_id(): b for b in ex.binders}
+        used = {}
         todo, seen = [body], set()
         while todo:
             t = todo.pop()
@@ -125,11 +125,30 @@ def closure(ex, E, name):
                 continue
             seen.add(t.get_id())
             if t.get_id() in ids:
-                return L.rtc(E, name, params=list(ex.binders))
+                used[t.get_id()] = ids[t.get_id()]
             if z3.is_quantifier(t):
                 todo.append(t.body())
             elif z3.is_app(t):
                 todo.extend(t.children())
+        bs = [b for b in ex.binders if b.get_id() in used]
+        if bs:
+            # the same relation up to the names of the iteration constants: one indexed closure symbol serves every
+            # instance (its axioms are closed over the index)
+            for nm0, F0, ps0, R0 in getattr(L, "param_closures", []):
+                if len(ps0) == len(bs) and all(p.sort() == b.sort() for p, b in zip(ps0, bs)):
+                    b0 = z3.substitute(R0(x, y), *zip(ps0, bs)) if not all(p.eq(b) for p, b in zip(ps0, bs)) else R0(x, y)
+                    same = z3.eq(z3.simplify(b0), z3.simplify(body))
+                    if not same:
+                        # bound-variable names differ between two renderings of the same formula: ask the solver (no axioms,
+                        # no path condition: pure first-order equivalence)
+                        from .symexec import hard_check
+                        sv = z3.Solver()
+                        sv.set("timeout", 300)
+                        sv.add(b0 != body)
+                        same = hard_check(sv, 300) == "unsat"
+                    if same:
+                        return (lambda F0, bs: (lambda a, b: F0(*bs, a, b)))(F0, bs)
+            return L.rtc(E, name, params=bs)
     return L.rtc(E, name)
 
 
